@@ -308,3 +308,17 @@ def chain3_empty(maxseq=4, **kw):
 
 
 ALL.update(chain3_empty=chain3_empty)
+
+
+def balance2_eph(maxseq=6, **kw):
+    """balanced splitter with a '?' listener attached to the endpoint of a slow worker"""
+    t = balance2(maxseq=maxseq, **kw)
+    t.filters['W1']['beh']['slow'] = True
+    t.filters['E'] = dict(srcs=[src('S', out=1, eph=1)], nout=0, outbal=False, srcbal=False, required=[], beh=beh('sink'))
+    t.names.append('E')
+    t.fidx['E'] = len(t.names)
+    t.name = 'Balance2Eph'
+    return t
+
+
+ALL.update(balance2_eph=balance2_eph)
